@@ -427,5 +427,5 @@ func superset(b, a *model.Value) bool {
 }
 
 func TestProp(t *testing.T) {
-	hx.RunProperty(t, hx.NewSub("readonly", 20000, 120000, genCase, check))
+	hx.RunProperty(t, hx.NewSub("readonly", 20000, 120000, genCase, check), hx.NewSub("split_exp", 1500, 10000, genSplit, checkSplit))
 }
